@@ -205,6 +205,25 @@ def run_case(ctx, family, params):
                 ctx.check("per-atom-grid-store-independent", "getitem:center", float(np.abs(np.asarray(h0.center) - np.asarray(h1.center)).max()), 0.0)
                 if float(np.abs(h0.weights - h1.weights).max()) > 0:
                     ctx.observe("MolGrid.__getitem__ weights differ between store=True (atomic weights) and store=False (aim-weighted)")
+            # call histories on ONE object: whatever accessor was used before, in whatever order, get_atomic_grid(i)
+            # hands back atom i's grid (points, atomic weights, centre) and mol[i] keeps returning what it returned first
+            for mol, tag in ((m0, "store=False"), (m1, "store=True"), (MolGrid(atnums, atgrids, aim, store=False), "fresh,store=False")):
+                first = {}
+                seq = [(int(rng.integers(0, len(atnums))), bool(rng.integers(0, 2))) for _ in range(2 * len(atnums) + 3)]
+                if tag.startswith("fresh"):
+                    seq = [(i, True) for i in range(len(atnums))] + seq  # mol[i] BEFORE any get_atomic_grid(i)
+                for i, use_getitem in seq:
+                    if use_getitem:
+                        h = mol[i]
+                        ctx.hit("MolGrid.__getitem__")
+                        if i in first:
+                            ctx.check("per-atom-grid-history-independent", f"getitem[{tag}]:weights", float(np.abs(h.weights - first[i]).max()), 0.0)
+                        first.setdefault(i, np.array(h.weights))
+                        ctx.check("per-atom-grid-history-independent", f"getitem[{tag}]:points", float(np.abs(h.points - atgrids[i].points).max()), 0.0)
+                    else:
+                        g = mol.get_atomic_grid(i)
+                        ctx.hit("MolGrid.get_atomic_grid")
+                        _same_grid(ctx, "per-atom-grid-history-independent", f"get_atomic_grid[{tag}]", g, atgrids[i], 0.0)
     elif family == "from_size":
         atnums, coords = _molecule(rng)
         size = int(rng.integers(6, 200))
